@@ -92,6 +92,23 @@ Verdict(sg, ev) ==
     \* (tag edits go through fiddle's tagging functions; the repository's own tests pin
     \* their entries to `add_tag`, so attribution is required of direct edits only)
     ELSE ""
+  ELSE IF ev.op.name = "assigntv" THEN
+    \* cfg.<name> = TaggedValue(tags, value): the value is stored, the tags are merged
+    LET r == SetAttr(sg, S, ev.op.a, ev.op.vals[1])
+        k == 200 + ev.op.a
+        merged == BitOr(MaskOf(tgs, k), ev.op.b)
+        vd == SelectSeq(ev.delta, LAMBDA e : e.kind \in {"v", "d"})
+        td == SelectSeq(ev.delta, LAMBDA e : e.kind = "t")
+    IN
+    IF ev.out # r.out THEN "outcome"
+    ELSE IF ev.post # r.S THEN "state"
+    ELSE IF ~DeltaOK(sg, S, r.S, [name |-> "setattr", a |-> ev.op.a, b |-> 0, c |-> 0, vals |-> <<>>],
+                     vd, trk) THEN "delta"
+    ELSE IF trk /\ ~(td # <<>> /\ (\A n \in 1..Len(td) : td[n].key = k) /\ td[Len(td)].val = merged)
+         THEN "tag-delta"
+    ELSE IF ~trk /\ td # <<>> THEN "tag-delta"
+    ELSE IF ~Attributed(ev) THEN "attribution"
+    ELSE ""
   ELSE IF ev.op.name \in {"suspend_enter", "suspend_exit"} THEN
     IF ev.delta # <<>> \/ ev.post # S THEN "suspend-changes-something" ELSE ""
   ELSE IF ev.op.name = "assign" THEN
@@ -136,7 +153,9 @@ TNext ==
      /\ why' = vd
      /\ l' = IF vd = "" THEN l + 1 ELSE l
      /\ S' = ev.post
-     /\ tgs' = IF ev.op.name \in TagOps /\ ev.out = "ok"
+     /\ tgs' = IF ev.op.name = "assigntv" /\ ev.out = "ok"
+               THEN WithMask(tgs, 200 + ev.op.a, BitOr(MaskOf(tgs, 200 + ev.op.a), ev.op.b))
+               ELSE IF ev.op.name \in TagOps /\ ev.out = "ok"
                THEN WithMask(tgs, ev.op.a,
                       CASE ev.op.name = "addtag" -> BitOr(MaskOf(tgs, ev.op.a), ev.op.b)
                         [] ev.op.name = "removetag" -> MaskOf(tgs, ev.op.a) - ev.op.b
@@ -147,7 +166,9 @@ TNext ==
                    [] ev.op.name = "suspend_exit" -> depth - 1
                    [] OTHER -> depth
      /\ stale' = (stale \cup (IF trk THEN {} ELSE Changed(sg, S, ev.post))) \ KeysIn(ev.delta)
-     /\ tstale' = IF ev.op.name \in TagOps
+     /\ tstale' = IF ev.op.name = "assigntv"
+                  THEN (IF trk THEN tstale \ {200 + ev.op.a} ELSE tstale \cup {200 + ev.op.a})
+                  ELSE IF ev.op.name \in TagOps
                   THEN (IF trk THEN tstale \ {ev.op.a} ELSE tstale \cup {ev.op.a})
                   ELSE tstale
      /\ maxseq' = IF ev.seqs = <<>> THEN maxseq ELSE ev.seqs[Len(ev.seqs)]
